@@ -219,6 +219,16 @@ MUTANTS: List[Dict] = [
     M("ok-latch-order", "benign", TR, "        _jump_targets=(\n            synth_exit if needs_synth_exit else next(iter(exit_blocks)),\n            loop_head,\n        ),", "        _jump_targets=(\n            loop_head,\n            synth_exit if needs_synth_exit else next(iter(exit_blocks)),\n        ),", [], "a new synthetic block's successor order is free"),
     M("ok-len-rewrite", "benign", SCFG, "        if len(tails) == 1 and len(exits) == 1:\n            # no-op", "        if len(tails) < 2 and len(tails) > 0 and len(exits) == 1:\n            # no-op", []),
     M("ok-comprehension-rename", "benign", TR, "        jt = list(entry._jump_targets)\n        for idx, s in enumerate(jt):\n            if s == region_header:\n                jt[idx] = region_name\n        entry = entry.replace_jump_targets(jump_targets=tuple(jt))\n", "        jt = list(entry._jump_targets)\n        for pos, tgt in enumerate(jt):\n            if tgt == region_header:\n                jt[pos] = region_name\n        entry = entry.replace_jump_targets(jump_targets=tuple(jt))\n", []),
+    M("ok-loop-to-comprehension", "benign", TR, "        jt = list(entry._jump_targets)\n        for idx, s in enumerate(jt):\n            if s == region_header:\n                jt[idx] = region_name\n        entry = entry.replace_jump_targets(jump_targets=tuple(jt))\n", "        jt = [region_name if s == region_header else s for s in entry._jump_targets]\n        entry = entry.replace_jump_targets(jump_targets=tuple(jt))\n", [], "index-store loop rewritten as an element-wise comprehension"),
+    M("ok-headers-index", "benign", TR, "        loop_head = next(iter(headers))\n", "        loop_head = headers[0]\n", [], "headers is a sorted list"),
+    M("ok-sorted-local", "benign", TR, "    for name in sorted(loop):\n", "    ordered_members = sorted(loop)\n    for name in ordered_members:\n", []),
+    M("ok-return-locals", "benign", SCFG, "        return sorted(headers), sorted(entries)\n", "        ordered_headers = sorted(headers)\n        ordered_entries = sorted(entries)\n        return ordered_headers, ordered_entries\n", []),
+    M("ok-worklist-deque", "benign", SCFG, "        while q:\n            key, value = q.pop()\n", "        while q:\n            key, value = q.pop(0)\n", [], "FIFO instead of LIFO work-list in to_dict"),
+    M("ok-isinstance-tuple", "benign", TR, "        if isinstance(entry, RegionBlock):\n            entry = update_exiting(entry, region_header, region_name)\n", "        if isinstance(entry, (RegionBlock,)):\n            entry = update_exiting(entry, region_header, region_name)\n", []),
+    M("ok-explicit-else", "benign", SCFG, "        if len(return_nodes) > 1:\n", "        if len(return_nodes) >= 2:\n", []),
+    M("ok-assert-message", "benign", TR, "    assert len(headers) == 1\n    assert len(exiting_blocks) == 1\n", "    assert len(headers) == 1, headers\n    assert len(exiting_blocks) == 1, exiting_blocks\n", []),
+    M("ok-graph-subscript", "benign", TR, "        _jump_targets=scfg[region_exiting].jump_targets,\n", "        _jump_targets=scfg.graph[region_exiting].jump_targets,\n", []),
+    M("ok-add-debug-render", "benign", RE, "        if type(block) == BasicBlock:  # noqa: E721\n            self.render_basic_block(digraph, name, block)\n", "        logging.getLogger(__name__).debug(\"render %s\", name)\n        if type(block) == BasicBlock:  # noqa: E721\n            self.render_basic_block(digraph, name, block)\n", []),
     M("ok-docstrings", "benign", SCFG, "        # TODO: needs a diagram and documentaion\n        # initialize new block\n", "        # initialise the new block (documentation pending)\n", []),
     M("ok-extra-sorted", "benign", SCFG, "        heads = set(self.graph.keys())\n", "        heads = set(sorted(self.graph.keys()))\n", []),
     M("ok-dispatch-type-in", "benign", AT, "        elif isinstance(node, ast.If):\n            self.handle_if(node)", "        elif type(node) in (ast.If,):\n            self.handle_if(node)", []),
